@@ -181,4 +181,34 @@ theorem newview_accepted_state (w : Term.W) (nvm : NVMsg) (b : Block) (R : List 
     have := key w1 c1 c2 c3 c4
     simpa using this
 
+/-- **the state right after accepting a stand-alone PREPREPARE** (authentic, no lock conflict, approved by the consumer, of the node's current view) -/
+theorem preprepare_accepted_state (w : Term.W) (ppm : PPMsg) (b : Block) (R : List Nat) (hfit : C06.Fits w.n.cfg.members)
+    (hauth : C08.PreprepareAuthentic w.n ppm) (hlock : lockConflict w.n ppm = false)
+    (hok : (askValidate w ppm.c.header.height ppm.c.header.view ppm.block ppm.c.header.hash).2 = true)
+    (hview : w.n.view = ppm.c.header.view)
+    (hb : ppm.block = some b) (hprep : w.n.prepared ≠ some ppm.c.header.view)
+    (hq : isQuorum w.n.cfg (R ++ [ppm.c.sender.id]) = true) :
+    (handlePrePrepare w ppm).n.cfg = w.n.cfg
+    ∧ (handlePrePrepare w ppm).n.view = ppm.c.header.view
+    ∧ (handlePrePrepare w ppm).n.store.getPP ppm.c.header.height ppm.c.header.view = some ppm
+    ∧ (ppm.c.header.height, ppm.c.header.view, ppm.c.header.hash, w.n.cfg.me) ∈ (handlePrePrepare w ppm).n.store.prepares.map C11.pkey
+    ∧ Out.send (others w.n.cfg) (.prepare (ownPrepare w.n.cfg ppm.c.header.height ppm.c.header.view ppm.c.header.hash)) ∈ (handlePrePrepare w ppm).outs
+    ∧ (CommitSent w.n.cfg ppm.c.header.height ppm.c.header.view ppm.c.header.hash (handlePrePrepare w ppm)
+        ∨ ((handlePrePrepare w ppm).n.prepared ≠ some ppm.c.header.view
+            ∧ ∃ id ∈ R, (ppm.c.header.height, ppm.c.header.view, ppm.c.header.hash, id) ∉ (handlePrePrepare w ppm).n.store.prepares.map C11.pkey)) := by
+  have hvp : validatePreprepare w.n ppm = true := (C08.validatePreprepare_iff _ _).mpr hauth
+  unfold handlePrePrepare
+  rw [if_neg (by simp [hvp]), if_neg (by simp [hlock])]
+  dsimp only
+  obtain ⟨c1, c2, c3, c4, _⟩ := askValidate_n w ppm.c.header.height ppm.c.header.view ppm.block ppm.c.header.hash
+  generalize askValidate w ppm.c.header.height ppm.c.header.view ppm.block ppm.c.header.hash = r at hok c1 c2 c3 c4 ⊢
+  obtain ⟨w1, ok⟩ := r
+  simp only at hok c1 c2 c3 c4 ⊢
+  subst hok
+  simp only [Bool.not_true, Bool.false_eq_true, if_false]
+  have hacc := accepted_state w1 ppm b w.n.cfg R hfit c1 (by rw [c3]; exact hview)
+    (by rw [c2]; exact hauth.2.2.2) (by rw [c4]; exact hprep) hb hq
+  obtain ⟨h1, h2, h3, h4, h5, _, h7⟩ := hacc
+  exact ⟨h1, h2, h3, h4, h5, h7⟩
+
 end LeanHelix.C05
